@@ -40,8 +40,10 @@ Theorem C08_truncation_body : forall compress decompress ft v2 cmp f q rest,
 Proof. exact (fun c d => decode_truncated_body parse_custom c d). Qed.
 
 (* preallocation is proportional to the input: the sum of the capacities requested at the pinned
-   `with_capacity` sites, in bytes, is at most 208 per byte of the (decompressed) input + 2^29;
-   [R] = by how much the negotiated codec may expand a body *)
+   `with_capacity` sites, in bytes, is at most 2288 per byte of the (decompressed) input, plus the
+   1 MiB body buffer of the frame reader - no other constant (alloc_bound len = 2288 * len + 2^20);
+   [R] = by how much the negotiated codec may expand a body (frame::decompress enforces 255 for LZ4,
+   32 for Snappy) *)
 Theorem C08_alloc : forall decompress R,
   1 <= R -> (forall b d, decompress b = Some d -> lenN d <= R * lenN b) ->
   forall ft v2 cmp stream,
@@ -122,9 +124,9 @@ Example C08_ex_truncation :
      = OErr StHeader EConnectionClosed.
 Proof. repeat split; vm_compute; reflexivity. Qed.
 
-(* the constant of C08_alloc is not slack: 129 nested user-defined types, each announcing 65535
-   fields (a 1.3 KB frame), make the decoder reserve 473 MB before it fails; the nesting limit is
-   reached exactly by 129 nested lists, and 130 are refused *)
+(* the inputs that reserved 473 MB / 6.4 MB before commit dba8b0a now stay within a small multiple of
+   their length: 129 nested user-defined types each announcing 65535 fields (1.3 KB), an 11-byte
+   SUPPORTED frame announcing 65535 options; the nesting limit is reached exactly by 129 nested lists *)
 Fixpoint ex_nest (k : nat) (pre : bytes) (inner : bytes) : bytes :=
   match k with O => inner | S k' => pre ++ ex_nest k' pre inner end.
 Definition ex_rows_with_type (ty : bytes) : bytes :=
@@ -133,10 +135,21 @@ Definition ex_rows_with_type (ty : bytes) : bytes :=
   enc_header (mkHeader 132 0 1 8 (lenN body)) ++ body.
 Definition ex_udt_bomb : bytes :=
   ex_rows_with_type (ex_nest 129 (enc_short 48 ++ enc_short 0 ++ enc_short 0 ++ enc_short 65535 ++ enc_short 0) []).
-Example C08_ex_alloc_constant :
+Definition ex_supported_ffff : bytes := [132; 0; 0; 1; 6; 0; 0; 0; 2; 255; 255].
+Example C08_ex_alloc_capped :
   lenN ex_udt_bomb = 1324 /\
-  c_alloc (snd (decode (fun _ => None) ex_ft true false ex_udt_bomb)) = 473426259 /\
-  is_rejected (fst (decode (fun _ => None) ex_ft true false ex_udt_bomb)) = true.
+  c_alloc (snd (decode (fun _ => None) ex_ft true false ex_udt_bomb)) = 1166275 /\
+  is_rejected (fst (decode (fun _ => None) ex_ft true false ex_udt_bomb)) = true /\
+  c_alloc (snd (decode (fun _ => None) ex_ft true false ex_supported_ffff)) = 2 /\
+  c_alloc (snd (decode (fun _ => None) ex_ft true false [132; 0; 0; 1; 8; 255; 255; 255; 255])) = 1048576 /\
+  alloc_bound 1324 = 4077888 /\ alloc_bound 0 = 1048576.
+Proof. repeat split; vm_compute; reflexivity. Qed.
+(* the implementation-side predicates reject what the repaired sites used to request *)
+Example C08_ex_in_proportion :
+  largest_in_proportion 1324 3669960 = true /\ largest_in_proportion 11 6422544 = false /\
+  largest_in_proportion (32 * 16) 4294967295 = false /\ largest_in_proportion 9 4294967295 = false /\
+  total_in_proportion 1324 473426950 = false /\ total_in_proportion 1324 8000000 = true /\
+  total_in_proportion 32 999999999999 = false /\ largest_in_proportion 100 1048576 = true.
 Proof. repeat split; vm_compute; reflexivity. Qed.
 Example C08_ex_depth :
   c_depth (snd (decode (fun _ => None) ex_ft true false (ex_rows_with_type (ex_nest 128 (enc_short 32) (enc_short 9))))) = 129
@@ -144,6 +157,34 @@ Example C08_ex_depth :
   /\ fst (decode (fun _ => None) ex_ft true false (ex_rows_with_type (ex_nest 129 (enc_short 32) (enc_short 9))))
      = OErr StBody ETypeNestingTooDeep.
 Proof. repeat split; vm_compute; reflexivity. Qed.
+
+Example C08_ex_is_rejected :
+  is_rejected (ODone ex_frame) = false /\ is_rejected (OErr StBody EIo) = true /\
+  is_rejected (fst (decode (fun b => Some b) ex_ft true false (encode_frame (fun b => b) ex_ft ex_frame))) = false.
+Proof. repeat split; vm_compute; reflexivity. Qed.
+
+(* C08_truncation_body is not vacuous: every strict prefix of the example's 116-byte body, behind a
+   header announcing the cut length and followed by another frame's bytes, is rejected - and by the
+   body decoders, not by the frame reader *)
+Definition ex_cut_frame (k : nat) : bytes :=
+  let q := firstn k (enc_body ex_ft ex_frame) in
+  enc_header (mkHeader 132 10 (-3)%Z 8 (lenN q)) ++ q ++ [132; 0; 0; 1; 2; 0; 0; 0; 0].
+Example C08_ex_truncation_body :
+  lenN (enc_body ex_ft ex_frame) = 116 /\
+  forallb (fun k => is_rejected (fst (decode (fun b => Some b) ex_ft true false (ex_cut_frame k)))) (seq 0 116) = true /\
+  fst (decode (fun b => Some b) ex_ft true false (ex_cut_frame 115)) = OErr StBody ETooFew /\
+  fst (decode (fun b => Some b) ex_ft true false (ex_cut_frame 10)) = OErr StExt ETooFew /\
+  is_rejected (fst (decode (fun b => Some b) ex_ft true false (ex_cut_frame 116))) = false.
+Proof. repeat split; vm_compute; reflexivity. Qed.
+
+(* wf_prepared's canonical-order condition on the partition-key indexes accepts the decoder-independent
+   reading "sorted by index, sequence numbers = wire positions" and refuses anything else *)
+Example C08_ex_pk_canonical :
+  pk_sort (pk_enumerate 0 (pk_wire [(0, 1); (2, 0); (2, 2)])) = [(0, 1); (2, 0); (2, 2)] /\
+  pk_wire [(0, 1); (2, 0); (2, 2)] = [2; 0; 2] /\
+  pk_sort (pk_enumerate 0 (pk_wire [(2, 0); (0, 1)])) <> [(2, 0); (0, 1)] /\
+  pk_sort (pk_enumerate 0 (pk_wire [(0, 5)])) <> [(0, 5)].
+Proof. repeat split; vm_compute; congruence. Qed.
 
 Print Assumptions C08_roundtrip.
 Print Assumptions C08_truncation.
